@@ -20,6 +20,7 @@ import (
 	"reflect"
 	"sort"
 	"strings"
+	"sync"
 
 	"verif/harness/lib"
 )
@@ -213,6 +214,9 @@ type Case struct {
 	Inject  string `json:"inject,omitempty"` // "", dupkey, nokey, fmkey: deliberate out-of-domain construction
 	Front   string `json:"front,omitempty"`  // "" = Graph API, wf = Workflow (field mappings), chain = Chain
 	CB      bool   `json:"cb,omitempty"`     // every call carries a callback handler that drains the stream copies it receives
+	// the program is compiled once more and the four paradigms are called AT THE SAME TIME, as the first calls
+	// on that fresh object; each must answer what the paradigms answered one after the other (direct oracle)
+	Conc bool `json:"conc,omitempty"`
 }
 
 type Obs struct {
@@ -591,7 +595,7 @@ func (engine) Run(ci any) lib.Result {
 		r = pack(c.Spec, rec)
 	} else {
 		var err error
-		r, err = compile(c.Prog, c.Front, c.DAG, c.CB, rec)
+		r, err = compileGuarded(c.Prog, c.Front, c.DAG, c.CB, rec)
 		if err != nil {
 			obs := Obs{Err: "compile: " + err.Error()}
 			res.Obs, res.Oracle, res.Sig = obs, obs.Err, "harness-compile"
@@ -630,12 +634,20 @@ func (engine) Run(ci any) lib.Result {
 			res.Oracle, res.Sig = why, "changed-after-later-call"
 		}
 	}
+	if c.Kind == "prog" && c.Conc && res.Oracle == "" && c.Inject == "" {
+		if why := concFirstCalls(c, run); why != "" {
+			res.Oracle, res.Sig = why, "concurrent-first-calls"
+		}
+	}
 	res.Obs = obs
 
 	// ---- model term
 	tags := []string{"kind:" + c.Kind, fmt.Sprintf("chunks:%d", len(c.Chunks))}
 	if run2 != nil {
 		tags = append(tags, "inputs:2")
+	}
+	if c.Conc {
+		tags = append(tags, "conc:first-calls")
 	}
 	nested, typed := caseNesting(c)
 	tags = append(tags, fmt.Sprintf("nested:%v", nested), fmt.Sprintf("typedmap:%v", typed))
@@ -694,6 +706,56 @@ func (engine) Run(ci any) lib.Result {
 	}
 	res.Tags = tags
 	return res
+}
+
+// compileGuarded: a panic while the graph is built or compiled is reported like a compile error (nothing is
+// compiled, there is no paradigm to compare), it does not take the harness process down
+func compileGuarded(p *Prog, front string, dag bool, cb bool, rec *recorder) (r runner, err error) {
+	if pv := lib.Recover(func() { r, err = compile(p, front, dag, cb, rec) }); pv != nil {
+		return nil, fmt.Errorf("panic while building / compiling: %v", pv)
+	}
+	return r, err
+}
+
+// concFirstCalls compiles the program once more and issues the four paradigms at the same time, as the very
+// first calls on the fresh object (whatever a compiled object sets up lazily on its first use is then set up
+// by four callers at once). Every call must answer what the paradigms answered one after the other: the
+// same value when they succeeded, a failure (no panic, no hang) when they failed. Only used on cases whose
+// sequential calls agreed, outside the deliberate out-of-domain constructions.
+func concFirstCalls(c *Case, run inRun) string {
+	r, err := compileGuarded(c.Prog, c.Front, c.DAG, c.CB, &recorder{})
+	if err != nil {
+		// a construction that compiles once and not the next time is a matter of the builder properties,
+		// not of the four paradigms of a compiled object: nothing to compare
+		return ""
+	}
+	var outs [4]POut
+	start := make(chan struct{})
+	var wg sync.WaitGroup
+	for par := 0; par < 4; par++ {
+		wg.Add(1)
+		go func(par int) {
+			defer wg.Done()
+			<-start
+			outs[par] = r.call(par, run.x, run.chunks)
+		}(par)
+	}
+	close(start)
+	wg.Wait()
+	for par := 0; par < 4; par++ {
+		o := outs[par]
+		switch {
+		case o.Class == "panic" || o.Class == "hang":
+			return fmt.Sprintf("four paradigms called at the same time on a fresh compiled object: %s: %s %s", parName[par], o.Class, o.Msg)
+		case run.allOK && !o.ok():
+			return fmt.Sprintf("four paradigms called at the same time on a fresh compiled object: %s fails (%s %s), called one after the other all four succeed", parName[par], o.Class, o.Msg)
+		case run.allOK && !vEqual(o.Val, run.obs.P[0].Val):
+			return fmt.Sprintf("four paradigms called at the same time on a fresh compiled object: %s delivers %s, called one after the other all four deliver %s", parName[par], js(o.Val), js(run.obs.P[0].Val))
+		case !run.allOK && o.ok():
+			return fmt.Sprintf("four paradigms called at the same time on a fresh compiled object: %s succeeds (%s), called one after the other all four fail", parName[par], js(o.Val))
+		}
+	}
+	return ""
 }
 
 // caseNesting: does the case put a map under a key of a map (an output key around a map
@@ -811,8 +873,14 @@ func stats(p *Prog) pstats {
 			feat["multibranch"] = true
 		case "pass":
 			st.nodes++
-			if q.W != nil {
+			if q.W != nil && (q.W.Pre != nil || q.W.Post != nil) {
 				feat["passhandler"] = true
+			}
+			if q.W != nil && q.W.In != nil {
+				feat["passinkey"] = true
+			}
+			if q.W != nil && q.W.Out != nil {
+				feat["passoutkey"] = true
 			}
 			feat["passthrough"] = true
 		case "skip":
